@@ -133,6 +133,26 @@ def c18(res):
                       "saturating scrolls, resize); a case = one event")
 
 
+def c19(res):
+    wd = workdir("C19")
+    res.models.append(model_check("Solver", "Solver.cfg", wd, workers=8, timeout=3000))
+    trace = os.path.join(wd, "trace.ndjson")
+    if not run_recorder(res, "c19", [res.tier, trace], wd, timeout=6000):
+        return res.finish("recorder crashed")
+    n, rej = validate("Trace_C19", trace, wd, timeout=3000)
+    res.validated = n - len(rej)
+    res.evaluations = n
+    res.samples = sample_lines(trace, maxlen=3000)
+    res.add_rejects(trace, rej, lambda r, f: "backend=%s n=%s free=%d status=%s %s fails=%s" % (
+        r.get("backend"), r.get("n"), sum(1 for x in r.get("roles", []) if x[1] == "free"), r.get("status"), r.get("msg", "")[:80], "+".join(sorted(f))))
+    res.assumptions = ["systems are consistent, diagonally dominant (well-conditioned), integer coefficients and integer solutions so the Jacobian clause is exact",
+                       "a solve still iterating after 100 000 Levenberg-Marquardt iterations is abandoned and reported as SPEC-DRIFT, not as a violation (the code does return, after > 10^6 iterations in observed cases; the property does not bound time)",
+                       "residual is judged: |equation| < 1e-3 in f64 at the returned point"]
+    return res.finish("Solver.tla (three-per-sample gradient packing, per-tape slot lookup, fixed parameters contribute nothing) checked by TLC; "
+                      "recorded calls of the real solver on linear systems with 1..40 parameters, random fixed subsets incl. none free, equations over "
+                      "different variable subsets, both backends, with hook-recorded Jacobian entries validated by Trace_C19; a case = one solve")
+
+
 def c20(res):
     wd = workdir("C20")
     res.models.append(model_check("EvalTrace", "EvalTrace.cfg", wd, workers=4, coverage=True))
@@ -452,7 +472,7 @@ def c11(res):
                       "Function and Shape APIs; a case = one call")
 
 
-CHECKS = {"C01": c01, "C03": c03, "C05": c05, "C06": c06, "C07": c07, "C09": c09, "C11": c11, "C12": c12, "C13": c13, "C02": c02, "C04": c04, "C10": c10, "C14": c14, "C15": c15, "C16": c16, "C18": c18, "C20": c20}
+CHECKS = {"C01": c01, "C03": c03, "C05": c05, "C06": c06, "C07": c07, "C09": c09, "C11": c11, "C12": c12, "C13": c13, "C02": c02, "C04": c04, "C10": c10, "C14": c14, "C15": c15, "C16": c16, "C18": c18, "C19": c19, "C20": c20}
 
 
 def replay(prop, path):
